@@ -71,7 +71,6 @@ def _e2e(text):
 
 CLAIMS.update({
     'C02': _e2e('After the fault prefix ends every reliable message is read and both sides report zero buffered/pending/in-flight bytes within heal + 600 s of virtual time (blackouts > 60 s, zero-window readers, 40 % loss, reordering).'),
-    'C04': _e2e('Handshake scenarios: 16 option combinations x 3 role assignments (client/server, both clients, out-of-band tokens) x up to 3 faults on the first 8 packets x start order; negotiated metadata against the truth table; stale handshake packets replayed after establishment; silent peer (bounded failure, 1+maxInitRetrans INITs); waiting server returns on transport close.'),
     'C06': _e2e('Unordered / partially reliable streams: reads must match distinct written messages (subsequence for ordered), DCEP always delivered in order.'),
     'C07': _e2e('Partial-reliability scenarios: a message that was not delivered must be one the sender told the peer to skip (stream entry or cumulative point of a FORWARD-TSN / I-FORWARD-TSN); everything else is delivered.'),
     'C08': _e2e('Graceful shutdown with data still queued, one-sided and crossed, under faults: Shutdown()==nil implies all earlier writes read in order before EOF; both sides closed; late writes/OpenStream rejected and never delivered.'),
@@ -94,6 +93,23 @@ CLAIMS.update({
         'note': NOTE_COMMON + ' Known finding D15: nothing in the association enforces the 2^15 hypothesis for DATA (a_rwnd counts user bytes only, entry cap off by default): '
                 'an application that lags 32769 small ordered messages behind loses acknowledged messages and later stalls (witness replayed on every run; e2e witness in corpus/C01).',
         'technique': 'Lean 4 proof (refinement of the queue to a table of messages, induction over arbitrary honest runs) + model/implementation differential replay + executable predicate on implementation outputs',
+    },
+})
+
+CLAIMS.update({
+    'C04': {
+        'text': 'Proved in Lean on the L0 handshake/negotiation model Hs (mirrors initClient, handleInit, handleInitAck, handleCookieEcho, handleCookieAck, '
+                'establish/updateInterleavingState, setSupportedExtensions, the zero-checksum parameter handling and the marshal/unmarshal checksum decisions): '
+                'for EVERY interleaving of starts, deliveries of ANY packet ever sent (loss, duplication, reordering, arbitrary delay) and T1 expiries, and all 16 option '
+                'combinations, an established endpoint uses interleaving iff both sides enabled it, the forward-TSN variant matches, and it sends zero checksums only if '
+                'the peer declared them acceptable (C04_agreement, C04_same_framing); ANY handshake packet leaves an established endpoint unchanged (C04_stale_harmless, '
+                'C04_established_stable); fault-free, crossed-INIT and single-loss schedules establish both sides for all option combinations. The model is tied to the code '
+                'by a line-by-line differential replay against two real associations driven by a packet shuffler. SYSTEM LEVEL (exploration): synctest e2e handshake scenarios '
+                '(3 role assignments incl. out-of-band tokens, faults on the first 8 packets, stale packets after establishment, silent peer -> bounded failure with '
+                '1+maxInitRetrans INITs, waiting server returns on transport close).',
+        'note': NOTE_COMMON + ' Liveness for arbitrary fault schedules within the retry budget is shown for representative schedules (decide) and sampled e2e, not proved for all; '
+                'blocking of the constructor calls is runtime behaviour (sampled).',
+        'technique': 'Lean 4 proof (inductive invariant over all op lists of a two-endpoint + packet-history model) + model/implementation differential replay + e2e scenarios',
     },
 })
 
